@@ -158,6 +158,10 @@ func (g *Gen) lemmas(st *State, env map[string]Val) {
 			for _, in := range bb.Instrs {
 				if a, ok := in.(*ssa.Alloc); ok && bb.Dominates(hdr) {
 					el := a.Type().(*types.Pointer).Elem()
+					if isBufType(el) {
+						g.bufAlloc(ls, a, false)
+						continue
+					}
 					if _, isArr := el.Underlying().(*types.Array); isArr {
 						g.step(fn, ls, a)
 						continue
@@ -183,6 +187,11 @@ func (g *Gen) lemmas(st *State, env map[string]Val) {
 		for a, v := range ls.cells {
 			if a.Comment != "" {
 				envL["old:"+a.Comment] = v
+			}
+		}
+		for v, rv := range g.regs {
+			if a, ok := v.(*ssa.Alloc); ok && a.Parent() == fn && a.Comment != "" && isBufType(a.Type().(*types.Pointer).Elem()) {
+				envL["old:"+a.Comment] = g.bufOf(ls, rv, false)
 			}
 		}
 		g.env = envL
@@ -233,6 +242,12 @@ func (g *Gen) cellByName(st *State, name string) (Val, bool) {
 	}
 	if best != nil {
 		return st.cells[best], true
+	}
+	// local buffers are heap objects bound to their Alloc
+	for v, rv := range g.regs {
+		if a, ok := v.(*ssa.Alloc); ok && a.Parent() == g.fn && a.Comment == name && isBufType(a.Type().(*types.Pointer).Elem()) {
+			return g.bufOf(st, rv, false), true
+		}
 	}
 	return Val{}, false
 }
